@@ -473,14 +473,14 @@ Section Stack.
   Lemma cthread hf lf t os : csafe t (thread_prog cap bsz hf lf t os) (tidle, sidle) (@Conc.QTrue _).
   Proof.
     unfold thread_prog. cbn [Conc.safe]. intros g [aT aS] tr [HT HS] Hv. cbn [a_begin fst snd] in *. exists (aT, aS).
-    split; [split; [apply (tbegin cap OK SH bsz Hbsz); [reflexivity|reflexivity|reflexivity|exact HT]|apply sbegin; [reflexivity|exact HS]]|].
+    split; [split; [apply (tbegin cap); [reflexivity|reflexivity|reflexivity|exact HT]|apply sbegin; [reflexivity|exact HS]]|].
     split; [intros u Hu; reflexivity|]. rewrite Hv. apply crun_ops. left. reflexivity.
   Qed.
 
   Lemma cinit_ok hf lf ths : Conc.cfg_ok cview CInv (init_cfg cap bsz hf lf ths).
   Proof.
     exists (((mkA (fun _ => idle) [], fun _ => idle2), fun _ => idle3), mkSA (fun _ => sidle) []). split.
-    - split; [apply (tinit cap OK SH bsz Hbsz)|apply sinit].
+    - split; [apply (tinit cap)|apply sinit].
     - intros t p Hp. cbn [init_cfg Conc.threads] in Hp. destruct (nth_thread_progs cap bsz Hbsz hf lf ths 0 t p Hp) as [os ->].
       cbn [Nat.add]. apply cthread.
   Qed.
@@ -508,11 +508,11 @@ Section Stack.
     pose proof (iC _ _ _ _ Hi) as [_ Hcap].
     split; [|split; [split|]].
     - intros i. split.
-      + intros Hv. destruct (occ_le cap OK g a1 _ i Hi (k6 _ _ _ F) Hv) as (j & Hj & Hjc & Ej). exists j. split; [|exact Ej]. split; [lia|].
+      + intros Hv. destruct (occ_le cap OK bsz Hbsz g a1 _ i Hi (k6 _ _ _ F) Hv) as (j & Hj & Hjc & Ej). exists j. split; [|exact Ej]. split; [lia|].
         destruct (Nat.le_gt_cases j (count g)) as [|Hgt]; [assumption|]. exfalso.
         destruct (iO _ _ _ _ Hi) as (O1 & _ & _). destruct (O1 j ltac:(lia)) as [_ K]. destruct (K Hgt) as [K1|[u K1]]; [rewrite Ej in K1; congruence|].
         destruct (k9 _ _ _ F u (Hpin u)) as (_ & _ & E). congruence.
-      + intros (j & Hj & <-). apply (occ_ge cap g a1 _ j Hi (k6 _ _ _ F) Hj).
+      + intros (j & Hj & <-). apply (occ_ge cap bsz Hbsz g a1 _ j Hi (k6 _ _ _ F) Hj).
     - intros i Hv. apply (iT _ _ _ _ Hi). exact Hv.
     - intros i Hv. destruct (cellt g i) as [| |u] eqn:Et; [|reflexivity|exfalso; apply (k3 _ _ _ F i u Et)].
       exfalso. apply Hv. apply (iT _ _ _ _ Hi). exact Et.
